@@ -196,7 +196,9 @@ def _q8c(s_old, s_new, resub, mid):
         return q.SKIP
     so, sn = q.pick(states, s_old), q.pick(states, s_new)
     resub = True if resub else False
-    mid = True if mid else False
+    if not q.in_range(mid, 4):
+        return q.SKIP
+    mid = q.pick([0, 1, 2, 3], mid)
     with q.notrace():
         w = _world(be)
         w.install()
@@ -205,8 +207,12 @@ def _q8c(s_old, s_new, resub, mid):
             b1.submit(T["A"], [])
         id1 = abst.jobs_by_cmd(w)[-1]["id"]
         if mid:
-            # an invocation in between (gwf status) sees the job in a transient condition; nothing may be forgotten
-            _transient(w, id1)
+            # an invocation in between (gwf status) sees the job in a transient condition, or in a state the scheduler
+            # later revises (a failed job requeued under the same id); nothing may be forgotten or remembered wrongly
+            if mid == 1:
+                _transient(w, id1)
+            else:
+                abst.set_state(w, id1, "failed" if mid == 2 else "pending")
             with _backend(w) as bm:
                 bm.status(T["A"])
             if be == "slurm":
@@ -234,7 +240,7 @@ def _q8c(s_old, s_new, resub, mid):
         w.uninstall()
 
 
-def q8c(s_old: int, s_new: int, resub: bool, mid: bool) -> str:
+def q8c(s_old: int, s_new: int, resub: bool, mid: int) -> str:
     """
     post: _ == ""
     """
@@ -335,7 +341,7 @@ QUERIES = [
     {"name": "Q8a-other", "fn": q8a_other, "shards": [{"be": "lsf"}, {"be": "sge"}, {"be": "local"}], "timeout": 600,
      "bound": "own job in each documented state of bjobs (12 incl. empty answer) / qstat (22 incl. absent) / the pool (8 incl. absent); 5 sets of unrelated jobs"},
     {"name": "Q8c", "fn": q8c, "shards": [{"be": b} for b in ("slurm", "sge", "lsf", "local")], "timeout": 600,
-     "bound": "invocations: submit, optionally a status while the job is in a transient condition (SGE error state Eqw, Slurm: in neither squeue nor sacct, LSF: empty bjobs answer), optional resubmission, query; old and new job each in {pending, running, failed, done}"},
+     "bound": "invocations: submit, optionally a status while the job is in a transient condition (SGE error state Eqw, Slurm: in neither squeue nor sacct, LSF: empty bjobs answer) or failed / pending before the scheduler revises that state under the same id, optional resubmission, query; old and new job each in {pending, running, failed, done}"},
     {"name": "Q8d", "fn": q8d, "shards": [{}], "timeout": 300, "bound": "0..5 tracked ids, batch size 1..3 (symbolic); the shipped default 1024 is the same code path"},
     {"name": "Q8e", "fn": q8e, "shards": [{}], "timeout": 300, "bound": "pool restarted or not; a task of another target with the same / another id in 3 states"},
 ]
